@@ -118,7 +118,11 @@ def run_case(case, workdir):
         x, ll, lp, lq = c["pop"]
         bits = c["bits"]
         betas = c["betas"]
-        enlargement = c["pop_beta"] == (betas[-1] if betas else None) and c["pop_beta"] == 1.0 and ci == len(calls) - 1 and n_final is not None
+        # the call after the last iteration is the final enlargement: it moves the last population (which may sit below 1
+        # when the run stopped at the step cap) to beta = 1 with n_final_samples draws
+        n_it_now = len(betas)
+        enlargement = (n_final is not None and n_final != scn["n_samples"] and ci == len(calls) - 1
+                       and ci >= n_it_now and c["pop_beta"] == (betas[-1] if betas else None))
         b0 = c["pop_beta"]
         b1 = 1.0 if enlargement else betas[-1]
         want_p = M.norm_weights(M.incr_logw(ll, lp, lq, b0, b1))
